@@ -462,6 +462,7 @@ class Sim(object):
         self.ctx = A.Ctx(prop, self.stats)
         self.log = EventLog()
         self.ops = []
+        self.results = []
         self.sched = stream(seed, "schedule")
 
     def pool_event(self, rec):
@@ -488,6 +489,7 @@ class Sim(object):
             rec = A.execute(op, self.world, self.ctx)
             self.ops.append(op)
             self.log.append({"i": len(self.ops) - 1, "op": op, "out": rec.get("out"), "res": rec.get("res")})
+            self.results.append([(rec.get("out") or {}).get("kind"), (rec.get("out") or {}).get("type"), rec.get("res")])
             client.deliver(op, rec)
             if self.ctx.violation is not None:
                 break
@@ -519,8 +521,9 @@ def run_one(prop, tier, seed, proxy=True):
     nontrivial = st.fault_in_op > 0 if prop != "C04" else st.nonvacuous > 0
     if prop == "C07":
         nontrivial = st.nonvacuous > 0 and (st.fault_in_op > 0 or bool(st.faults))
+    from sim.kernel import sha
     return {"ops": sim.ops, "violation": violation, "digest": sim.log.digest(), "stats": st,
-            "config": sim.cfg.as_dict(), "nontrivial": nontrivial}
+            "config": sim.cfg.as_dict(), "nontrivial": nontrivial, "result_digest": sha(sim.results)[:20]}
 
 
 def replay(prop, trace):
